@@ -266,8 +266,18 @@ def r10_8(ctx: Ctx) -> None:
                   construct="ArchiveInfo uncompressed")
         ctx.check(any("header.size" in s for s in src("header_size")), "R10.8", f, c, "header_size = header.size", "ArchiveInfo.header_size does not come from header.size", construct="ArchiveInfo header_size")
     s = shared.szf(ctx, "_is_solid")
-    ok = any(isinstance(n, ast.Compare) and isinstance(n.ops[0], ast.Gt) and isinstance(n.comparators[0], ast.Constant) and n.comparators[0].value == 1 for n in ast.walk(s.node)) and \
-        any(isinstance(n, ast.For) and norm(n.iter).endswith("num_unpackstreams_folders") for n in walk(s.node))
+    def _more_than_one(n):
+        # x > 1, 1 < x, x >= 2, 2 <= x
+        if not (isinstance(n, ast.Compare) and len(n.ops) == 1):
+            return False
+        l, o, r = n.left, n.ops[0], n.comparators[0]
+        cv = lambda e, v: isinstance(e, ast.Constant) and e.value == v
+        return (isinstance(o, ast.Gt) and cv(r, 1)) or (isinstance(o, ast.Lt) and cv(l, 1)) or (isinstance(o, ast.GtE) and cv(r, 2)) or (isinstance(o, ast.LtE) and cv(l, 2))
+
+    over_all = any(isinstance(n, ast.For) and norm(n.iter).endswith("num_unpackstreams_folders") for n in walk(s.node)) or \
+        any(isinstance(n, ast.Call) and isinstance(n.func, ast.Name) and n.func.id == "any" and n.args and isinstance(n.args[0], (ast.GeneratorExp, ast.ListComp))
+            and norm(n.args[0].generators[0].iter).endswith("num_unpackstreams_folders") and not n.args[0].generators[0].ifs and _more_than_one(n.args[0].elt) for n in ast.walk(s.node))
+    ok = any(_more_than_one(n) for n in ast.walk(s.node)) and over_all
     ctx.check(ok, "R10.8", s, s.node, "solid iff some folder holds more than one stream", "_is_solid does not test 'some folder holds > 1 substream' over all folders", construct="_is_solid")
     m = shared.szf(ctx, "_get_method_names")
     ok = any(isinstance(g.iter, ast.Attribute) and g.iter.attr == "folders" for n in ast.walk(m.node) if isinstance(n, (ast.ListComp, ast.GeneratorExp)) for g in n.generators)
